@@ -6,7 +6,11 @@ the schema loader (SchemaCollection.load / Schema.open_imports / sxbasic
 Import.open / Include.open with loaded_schemata and the `opened` flags) and
 DocumentReader.open (document cache, store, transport): termination for every
 document graph, one fetch per memo domain and URL, store before transport,
-reachable-only (guarded + refuted witness), failure atomicity.
+reachable-only (WSDL level unconditional, schema level guarded, refuted witness),
+failure atomicity, and (coq/C12/Collect.v) partition equivalence: under explicit
+guards the tables of the root Definitions hold exactly the declarations of the
+reachable documents, so every partition of an interface constructs the tables
+of the single-document WSDL.
 
 Tie to the code: generated interfaces are partitioned into 1..6 documents
 linked by wsdl:import / xsd:import / xsd:include (plus every graph on <= 3
@@ -32,7 +36,9 @@ from . import common
 from .common import cN, cbool, clist, cnat, copt, cstr
 
 THEOREMS = ["load_terminates", "store_before_transport", "cache_complete", "cache_transparent",
-            "failure_atomic", "fetch_once", "fetch_reachable_only_partial", "fetch_reachable_only_refuted"]
+            "failure_atomic", "fetch_once", "fetch_reachable_only_partial", "fetch_reachable_only_refuted",
+            "load_collects_declarations", "partition_equivalent", "single_document_is_partition",
+            "fetch_reachable_only_guarded"]
 
 PRE = "From SV Require Import Lib.Base C12.Url C12.Model C12.Corr."
 
